@@ -130,6 +130,10 @@ def c02(E, blt, opts, r):
             tot = a['votes'] + a['residual']
             if fv(E, a['residual']) < 0: out.append(V_('c02-negative', "negative residual %s at %r" % (a['residual'], a['msg']), **sig))
             if fv(E, tot) > n: out.append(V_('c02-created', "votes+residual = %s exceeds %d at %r" % (tot, n, a['msg']), **sig))
+            # meek / warren: the residual absorbs every truncation, so right after a distribution nothing is missing
+            # (whole-run theorem C02_meek_iterations_conserve_whole_run); meek-prf logs no 'iterate' action
+            if a['tag'] == 'iterate' and fv(E, tot) < n:
+                out.append(V_('c02-lost', "votes+residual = %s falls short of %d ballots at %r" % (tot, n, a['msg']), **sig))
         elif rule == 'qpq' and snapsB is not None:
             nel = len([1 for c in a['cstate'].values() if c['state'] == 'elected'])
             ws = snapsB[i]
@@ -238,6 +242,27 @@ def c06(E, blt, opts, r):
                 have = sums.get(cid, zero)
                 if fv(E, have) != fv(E, c['vote']):
                     out.append(V_('c06-tally', "candidate %d tally %s != %s, the sum of its ballots' values, at %r" % (cid, c['vote'], have, a['msg']), **sig)); break
+        # candidates that are no longer continuing: either the ballots are still theirs at their value (defeated, not yet
+        # transferred; elected at the end without a transfer) or they hold none (the whole-run theorem of Props/C06.v)
+        for cid, c in cs.items():
+            if c['state'] == 'defeated' or (c['state'] == 'elected' and not c.get('pending')):
+                have = sums.get(cid, zero)
+                if fv(E, have) != 0 and fv(E, have) != fv(E, c['vote']):
+                    out.append(V_('c06-tally-noncontinuing', "candidate %d (%s) shows %s while the ballots still standing with it are worth %s, at %r" %
+                                  (cid, c['state'], c['vote'], have, a['msg']), **sig)); break
+        # after a transfer nothing is left behind with the candidates it names
+        if a['tag'] == 'transfer' and ': ' in a['msg']:
+            tail = a['msg'].split(': ', 1)[1]
+            if is_surplus_transfer(a): tail = tail.rsplit(' (', 1)[0]
+            allnames = [c.name for c in E.C]
+            named = [c for c in E.C if c.name in tail.split(', ')]
+            if named and all(', ' not in n for n in allnames) and len(set(allnames)) == len(allnames) and \
+               sorted(c.name for c in named) == sorted(tail.split(', ')):
+                ids = set(c.cid for c in named)
+                for (idx, w), b in zip(ws, E.ballots):
+                    rk = list(b.ranking)
+                    if idx < len(rk) and rk[idx] in ids:
+                        out.append(V_('c06-left-behind', "ballot %s still stands with candidate %d after %r" % (rk, rk[idx], a['msg']), **sig)); break
         # P4: weights change only at a surplus transfer, only for the transferring candidate's ballots, rounded down
         if prev is not None:
             changed = [(k, pw, nw) for k, ((pi, pw), (ni, nw)) in enumerate(zip(prevw, ws)) if fv(E, pw) != fv(E, nw)]
